@@ -184,6 +184,7 @@ package stick
 //@   ensures nilval: val == nil ==> r0 == 0 && err == nil
 //@   ensures agree: val != nil ==> (err == nil) == iterk(ikind(val))
 //@   ensures len: val != nil && err == nil ==> r0 == rv_len(rv_ind(rv_of(val)))
+//@   ensures nonneg: r0 >= 0
 //@ func stick.IsArray
 //@   ensures spec: result == (ikind(val) == 23 || ikind(val) == 17)
 //@ func stick.IsMap
